@@ -14,6 +14,8 @@ CLAIMED = {
  "C02": ("model_checking", HIST + " Clauses: after every step every acknowledged blob/manifest/tag reads back byte-identical (GET and HEAD, by digest and tag, ranges), with media type, length and digest header; over-limit manifests are refused.", "6 C02"),
  "C03": ("model_checking", HIST + " Clauses: tag resolution equals the model map after every step, tags/list is exactly the sorted tag set, n/last pages are exact, open classes of n give a valid listing.", "6 C03"),
  "C04": ("model_checking", HIST + " Clauses: a manifest push is acknowledged iff ManAccept holds; after a refusal blobs, manifests, tags, tag list and every referrers list are what the model says (unchanged).", "6 C04"),
+ "C05": ("model_checking", HIST + " GC runs only through the verif hook at model-chosen points (also between the uploads and the manifest of one image), blob ages are set with a hook; all 16 combinations of Untagged/ReferrersDangling/ReferrersWithSubj/GracePeriod. Clause gc.safe: the observed state after a collection contains MustBlobs/MustAddr of the declarative policy (spec/Registry.tla), adds nothing, keeps tags and media types.", "6 C05"),
+ "C06": ("model_checking", HIST + " Clauses gc.exact (once nothing is young the observed state is inside MayBlobs/MayMan: exactly the garbage is gone), gc.idem (a second collection changes nothing), and store wide passes (GCPass) over healthy repositories next to corrupt / phantom / removed ones, repeated so that Go's random map order covers the visiting orders.", "6 C06"),
  "C07": ("model_checking", HIST + " Clauses: for every catalogue subject, unfiltered and per artifactType, cold and cache-warm, the listed digests equal the derived Referrers set, each once, with exact descriptor fields; filter announced.", "6 C07"),
  "C18": ("model_checking", "spec/IndexImpl.tla transcribes AddDesc/RmDesc/AddChildren/GetDesc/GetByAnnotation statement by statement; TLC checks all C18 invariants and action properties on the closure (every operation sequence of any length) of small universes; behaviours of the model (tlc -simulate of spec/MCIndex.tla, with the predicted list after each step) and Go-generated random sequences are applied to the real types.Index; the projection through the public methods after every step, including an earlier Copy, is validated by TLC against the abstract index model spec/TraceIndex.tla (verdict); list differences to IndexImpl are reported as DRIFT.", "6 C18"),
  "C08": ("model_checking", HIST + " Clauses: PATCH/PUT accepted iff offsets and state token are in order, status query exact, completion stores the concatenation, sessions exist exactly while the model says so (hook, no LRU refresh), per repository.", "6 C08"),
